@@ -333,6 +333,7 @@ def run_stress(spec):
     delivered_faults = 0
     paced_runs = 0
     soft_on_second = 0
+    late_runs, slowest, diag = 0, 0.0, None
     try:
         w.start()
         sps, conns = [], []
@@ -399,9 +400,29 @@ def run_stress(spec):
             for t in ths:
                 t.join()
             want = [sum(len(v[1]) for v in msgs[ci].values() if v[1] is not None) for ci in range(2)]
+            def incomplete():
+                return any(len(sps[ci].node_sock.tx) - tx0[ci] < want[ci] for ci in range(2))
+
             end = time.time() + 10
-            while time.time() < end and any(len(sps[ci].node_sock.tx) - tx0[ci] < want[ci] for ci in range(2)):
+            while time.time() < end and incomplete():
                 time.sleep(0.0005)
+            if incomplete():
+                # the property has no deadline: bytes that arrive late are late, not lost.  Wait much longer before
+                # calling it a stall, and say then what every party is doing
+                t_late = time.time()
+                while time.time() < t_late + 120 and incomplete():
+                    time.sleep(0.005)
+                if not incomplete():
+                    late_runs += 1
+                    slowest = max(slowest, round(time.time() - t_late + 10, 1))
+                else:
+                    diag = {"io_thread_alive": h.io_alive(), "thread_exceptions": list(h.thread_exc)[:3],
+                            "conns": [{"state": c.state, "write_buffer": len(c.write_buffer),
+                                       "queued": c._write_msg_queue.qsize(),
+                                       "writer_alive": c._write_thread.is_alive(),
+                                       "reader_alive": c._read_thread.is_alive(),
+                                       "sock_closed": sps[i].node_sock.closed,
+                                       "plan_left": len(sps[i].node_sock.send_plan)} for i, c in enumerate(conns)]}
             time.sleep(0.002)
             evals += 1
             hashes.add(h64("stress", spec["name"], run, tuple(plans[0]), tuple(plans[1])))
@@ -435,6 +456,9 @@ def run_stress(spec):
                 if verdict is not None:
                     verdict[1]["connection"] = ci
                     verdict[1]["plans"] = plans
+                    if verdict[0] == "message_missing_or_stalled":
+                        verdict[1]["waited_s"] = 130
+                        verdict[1]["diagnosis"] = diag
                     break
             if verdict is not None and len(wit) < 5:
                 wit.append({"key": f"outbound.{verdict[0]}.free_running", "detail": verdict[1]})
@@ -453,6 +477,7 @@ def run_stress(spec):
             "samples": [{"stress_runs": evals, "messages_per_run": 26, "connections": 2, "p_yield": spec["p"]}],
             "coverage": {"stress_runs": evals, "stress_runs_with_paced_producers": paced_runs,
                          "stress_runs_with_soft_errors_on_second_connection": soft_on_second,
+                         "stress_runs_completed_after_more_than_10s": late_runs, "stress_slowest_run_s": slowest,
                          "yields_injected": y.yields, "write_plan_entries_delivered": delivered_faults}}
 
 
